@@ -2,6 +2,7 @@ package resprops
 
 // C16, last sentence, for keys that are damaged rather than merely unrequested: "a response that mentions a key which was
 // never requested produces an error rather than a silently extended result" (and "no entry lost"). A valid batch response
+// (for batch_create: the ids of the created elements)
 // of a complex-key resource is captured; in one of its maps (results / statuses / errors) one member name is replaced by
 // the same key with a required field of its key record removed - a key nobody requested, and one whose own reader
 // reports a missing required field. Served through a canned transport, neither a strict nor a lenient client may turn
@@ -37,15 +38,25 @@ func checkDamagedKey(rec *stats.Recorder, c damagedKeyCase) string {
 	if err != nil {
 		return ""
 	}
+	// places where the response spells a key: the member names of the three maps, and the ids of batch_create elements
 	type site struct {
-		m *refcodec.Tree
-		i int
+		get func() string
+		set func(string)
 	}
 	var sites []site
 	for _, name := range []string{"results", "statuses", "errors"} {
 		if m := root.Get(name); m != nil && m.Kind == "obj" {
 			for i := range m.Obj {
-				sites = append(sites, site{m, i})
+				m, i := m, i
+				sites = append(sites, site{func() string { return m.Obj[i].K }, func(k string) { m.Obj[i].K = k }})
+			}
+		}
+	}
+	if el := root.Get("elements"); el != nil && mi.Rest() == "batch_create" {
+		for _, e := range el.Arr {
+			if id := e.Get("id"); id != nil && id.Kind == "str" {
+				id := id
+				sites = append(sites, site{func() string { return id.Str }, func(k string) { id.Str = k }})
 			}
 		}
 	}
@@ -54,7 +65,7 @@ func checkDamagedKey(rec *stats.Recorder, c damagedKeyCase) string {
 		return ""
 	}
 	st := sites[c.Picks[0]%len(sites)]
-	raw := st.m.Obj[st.i].K
+	raw := st.get()
 	kt, perr := refcodec.ParseROR2(raw)
 	kn := S.Lookup(*mi.KeyType.Ref)
 	var required []string
@@ -70,7 +81,7 @@ func checkDamagedKey(rec *stats.Recorder, c damagedKeyCase) string {
 	dropped := required[c.Picks[1]%len(required)]
 	kt.Del(dropped)
 	damaged := refcodec.RenderROR2(kt, refcodec.ROR2Opts{Flavour: refcodec.Header})
-	st.m.Obj[st.i].K = damaged
+	st.set(damaged)
 	body := refcodec.RenderJSON(root, refcodec.JSONOpts{})
 	rec.Case("damaged_key", "method="+mi.Rest())
 	rec.NonTrivial("damaged-key", c.Call.Resource+"."+c.Call.Method+"|"+body, func() any { return c })
@@ -83,6 +94,13 @@ func checkDamagedKey(rec *stats.Recorder, c damagedKeyCase) string {
 		call := c.Call
 		if p, pv, stk := hx.Try(func() { got, cerr, _ = dyn.CallClient(S, contextBackground(), cl, &call, nil) }); p {
 			return fmt.Sprintf("client (strict=%v) panicked on a batch response with a damaged key: %v\n%s", strict, pv, trimStack(stk))
+		}
+		if cerr == nil && mi.Rest() == "batch_create" && !strict {
+			// (ids of created entities are not requested keys: a lenient client may accept a partially filled id, as it does
+			// for the id header of a plain create - but then with every element of the response, none silently dropped)
+			if el := root.Get("elements"); el != nil && got != nil && len(got.BatchCreated) == len(el.Arr) {
+				continue
+			}
 		}
 		if cerr == nil {
 			return fmt.Sprintf("a batch response naming the key %q (the requested key %q without its required field %s) was turned into a successful result by a %s client: %s\n %s.%s\n response body=%s",
@@ -105,9 +123,12 @@ func TestC16DamagedKeys(t *testing.T) {
 		t.Skip()
 	}
 	var ms []*dyn.MethodInfo
-	for _, mi := range batchMethods() {
-		if mi.KeyType != nil && isComplexKey(*mi.KeyType) {
-			ms = append(ms, mi)
+	for _, mi := range methods {
+		switch mi.Rest() {
+		case "batch_get", "batch_update", "batch_partial_update", "batch_delete", "batch_create":
+			if mi.M.Kind == "REST_METHOD" && mi.KeyType != nil && isComplexKey(*mi.KeyType) {
+				ms = append(ms, mi)
+			}
 		}
 	}
 	if len(ms) == 0 {
@@ -119,7 +140,7 @@ func TestC16DamagedKeys(t *testing.T) {
 		call := genCall(rt, g, mi)
 		out := genOutcome(rt, g, mi, &call)
 		_, err, sl, _, _ := w.do(clientConfig{Transport: "inprocess"}, &call, &out, nil)
-		if err != nil || sl == nil || len(sl.wire) != 1 || sl.wire[0].Status != 200 {
+		if err != nil || sl == nil || len(sl.wire) != 1 || sl.wire[0].Status >= 300 {
 			rt.Skip()
 		}
 		cp := sl.wire[0]
